@@ -398,3 +398,67 @@ func c18FaultGen(t *rapid.T) C18FaultCase {
 func TestC18OpenFaults(t *testing.T) {
 	evid.Run(t, "C18", c18FaultGen, c18FaultCheck)
 }
+
+// C18ScaleCase: the same answer on every run also when a stage has to remember more than a round
+// number of things (whatever is evicted, capped or sampled at such a size must not depend on
+// map order).
+type C18ScaleCase struct {
+	N     int    `json:"n"`     // distinct ids, each logged twice ("begin" in container 0, "end" in container 1)
+	Query string `json:"query"` // contains "distinct id"
+	Reps  int    `json:"reps"`
+}
+
+func c18ScaleCheck(c C18ScaleCase) (r evid.Result) {
+	const base = int64(1700000000e9)
+	var begin, end []dl.Line
+	for i := 0; i < c.N; i++ {
+		begin = append(begin, dl.Line{TS: base + int64(i)*1e3, Msg: fmt.Sprintf("id=r%d phase=begin", i)})
+		end = append(end, dl.Line{TS: base + int64(c.N+i)*1e3, Msg: fmt.Sprintf("id=r%d phase=end", i)})
+	}
+	r.Class(true, fmt.Sprintf("distinct-values>=%d", c.N/1000*1000))
+	r.NonTrivial = c.N > 1000
+	var first string
+	for rep := 0; rep < c.Reps; rep++ {
+		d := &fakedocker.Daemon{}
+		d.Containers = append(d.Containers, dl.Ctr("id0", "c0", nil, begin), dl.Ctr("id1", "c1", nil, end))
+		data, err := dl.Eval(d, c.Query, dl.Params{Start: base - 1e9, End: base + 3600e9, Step: 3600e9, Limit: -1})
+		d.Done()
+		r.Evals++
+		if err != nil {
+			r.Violation = evid.Viol("C18/eval-error", "query %s over %d ids failed: %v", c.Query, c.N, err)
+			return r
+		}
+		txt, n, _ := canonResult(data)
+		if data.Type == lokiapi.StreamsResultQueryResponseData {
+			entries := 0
+			for _, s := range data.StreamsResult.Result {
+				entries += len(s.Values)
+			}
+			if entries != c.N {
+				r.Violation = evid.Viol("C18/scale-wrong-count", "query %s over %d ids logged twice each (repetition %d): %d entries, want %d", c.Query, c.N, rep, entries, c.N)
+				return r
+			}
+		}
+		_ = n
+		if rep == 0 {
+			first = txt
+		} else if txt != first {
+			r.Violation = evid.Viol("C18/different-answer", "query %s over %d ids logged twice each: repetition %d differs from repetition 0 (%d vs %d bytes of canonical text)", c.Query, c.N, rep, len(txt), len(first))
+			return r
+		}
+	}
+	return r
+}
+
+func c18ScaleGen(t *rapid.T) C18ScaleCase {
+	return C18ScaleCase{
+		N:     rapid.SampledFrom([]int{300, 1100, 4200, 9000, 9000, 17000}).Draw(t, "ids") + rapid.IntRange(0, 50).Draw(t, "ids-more"),
+		Query: rapid.SampledFrom([]string{`{} | logfmt | distinct id`, `{} | logfmt | distinct id | drop msg`, `sum(count_over_time({} | logfmt | distinct id [2h]))`}).Draw(t, "query"),
+		Reps:  3,
+	}
+}
+
+// TestC18Scale decides the first sentence of C18 at sizes beyond the round numbers.
+func TestC18Scale(t *testing.T) {
+	evid.Run(t, "C18", c18ScaleGen, c18ScaleCheck)
+}
